@@ -23,7 +23,7 @@ def cases(draw, max_leaves=8, ninst=3):
 
 class C01(Prop):
     ID = "C01"
-    QUICK = 700
+    QUICK = 1400
     THOROUGH = 16000
     RULE = ("case = (draft, reference-free well-meant schema from the interaction-biased grammar, 3 drawn schema-directed "
             "instances plus a deterministic schema-derived probe set of <= 36 instances: bounds and their neighbours, "
